@@ -405,7 +405,7 @@ func init() {
 	register(&propertySpec{
 		ID:      "C08",
 		Explain: "Static pairing / ordering / provenance rules for deleteWith cascades: the removal primitive always cascades, the cascade runs after the id left the map (termination), dependents come from the re-matching search, every removal from memory is paired with the storage removal, and property / rule wrappers carry deleteWith. Does not decide that exactly the dependents are found (that relies on matching and on the term index).",
-		Rules:   []ruleFn{ruleCascade, ruleStoreAck, ruleDeleteWithProvenance, ruleCascErr, ruleLoopExhaust("C08"), ruleTermFilter("C08"), ruleRemStoreFirst("C08"), ruleCascLoad("C08"), ruleCascNoVar, rulePropDwAny("C08"), rulePrepLoadTolerant("C08"), ruleIndexLoad("C08"), ruleFactMapOwner("C08")},
+		Rules:   []ruleFn{ruleCascade, ruleStoreAck, ruleDeleteWithProvenance, ruleCascErr, ruleLoopExhaust("C08"), ruleTermFilter("C08"), ruleRemStoreFirst("C08"), ruleCascLoad("C08"), ruleCascNoVar, rulePropDwAny("C08"), rulePrepLoadTolerant("C08"), ruleIndexLoad("C08"), ruleFactMapOwner("C08"), ruleCascLoadAfter},
 	})
 }
 
